@@ -428,6 +428,12 @@ int __printf(void (*printchar_handler)(void *d, int c),
         if (*format == '*')
         {
             width = va_arg(args, int);
+            if (width < 0)
+            {
+                /* a negative width argument is a '-' flag and a width */
+                ops |= OPS_FLAG_LEFT_ALIGN;
+                width = -width;
+            }
             ++format;
         }
         else
